@@ -244,6 +244,23 @@ example : mergeSingle atomComma ⟨"python_full_version", .ge, "3.8.5", false,
     .ver (.range { min := some { release := [3, 8, 5] }, incMin := true,
                    text := some ⟨.ge, { release := [3, 8, 5] }, false⟩ })⟩ true = none := by decide
 
+/-- `python_version < "empty>"`: operator and operand spell the `<empty>` keyword, so the specifier view is the empty
+    set, while the atom itself evaluates by the string fallback.  After the `fix:` for D40 it is never merged
+    (`Atom.exactView = false`): a Good, opaque atom. -/
+def atomKeyword : Atom := ⟨"python_version", .lt, "empty>", false, .ver .empty⟩
+
+theorem atomKeyword_good : GoodAtom env0 atomKeyword := by
+  refine ⟨by unfold Atom.WF; decide, ?_⟩
+  have h1 : atomKeyword.name ≠ "extra" := by decide
+  have h2 : setNames.contains atomKeyword.name = false := by decide
+  have h3 : versionLikeNames.contains atomKeyword.name = true := by decide
+  simp only [h1, if_false, h2, Bool.false_eq_true, h3, if_true]
+  exact Or.inl (by decide)
+
+example : mergeSingle atomKeyword ⟨"python_version", .ge, "99", false,
+    .ver (.range { min := some { release := [99] }, incMin := true, text := some ⟨.ge, { release := [99] }, false⟩ })⟩ false = none := by
+  decide
+
 /-- `implementation_version == "3.8"`: `_evaluate` compares it as a version (MARKERS_REQUIRING_VERSION), its
     specifier view is a string comparison (it is not in `_VERSION_LIKE_MARKER_NAME`).  Before the `fix:` for D24
     two such atoms were merged through the string view (`== "3.8" or == "3.9"` became a group that is false on
